@@ -57,6 +57,8 @@ type Engine struct {
 	sizes    types.Sizes
 	windows    map[int]*windowInfo
 	tableRegions []*Region
+	eagerPrune   bool
+	anyReturn    bool
 	usedIntr   map[string]bool
 	usedLemmas map[string]bool
 }
@@ -1066,11 +1068,19 @@ func (e *Engine) execFrom(st *State, fr *Frame, b *ssa.BasicBlock, prev *ssa.Bas
 				st.assume(c)
 				st2.assume(mkNot(c))
 				var out []Exit
+				if e.eagerPrune {
+					if e.unsatisfiable(st.hyps) {
+						st.hyps = append(st.hyps, tFalse)
+					}
+					if e.unsatisfiable(st2.hyps) {
+						st2.hyps = append(st2.hyps, tFalse)
+					}
+				}
 				if !st.infeasible() {
-					out = append(out, e.execFrom(st, fr, b.Succs[0], b, 0)...)
+					out = append(out, e.guarded(st, func() []Exit { return e.execFrom(st, fr, b.Succs[0], b, 0) })...)
 				}
 				if !st2.infeasible() {
-					out = append(out, e.execFrom(st2, fr2, b.Succs[1], b, 0)...)
+					out = append(out, e.guarded(st2, func() []Exit { return e.execFrom(st2, fr2, b.Succs[1], b, 0) })...)
 				}
 				return out
 			case *ssa.Jump:
@@ -1496,3 +1506,31 @@ func describeValue(v Value) string {
 }
 
 var _ = strings.Join
+
+// guarded runs one side of a fork; an engine error on a path whose path condition is unsatisfiable
+// (decided by the solver) is dropped together with the path.
+func (e *Engine) guarded(st *State, f func() []Exit) (out []Exit) {
+	hyps := append([]*Term{}, st.hyps...)
+	defer func() {
+		if r := recover(); r != nil {
+			ee, ok := r.(engineError)
+			if !ok {
+				panic(r)
+			}
+			if e.unsatisfiable(hyps) {
+				out = nil
+				return
+			}
+			panic(ee)
+		}
+	}()
+	return f()
+}
+
+func (e *Engine) unsatisfiable(hyps []*Term) bool {
+	e.varN++
+	hs := append(append([]*Term{}, hyps...), bitUFFacts(hyps)...)
+	q := &Query{Name: fmt.Sprintf("feas_%s_%d", e.curFunc, e.varN), Hyps: hs, Goal: tFalse}
+	r := solve(q, 5)
+	return r.Status == "unsat"
+}
